@@ -85,7 +85,7 @@ fn finish(ctx: Ctx, check: &checks::Check) -> i32 {
         "distinct_nontrivial": distinct,
         "rule": check.rule,
         "samples": ctx.stats.samples,
-        "exhaustive": !ctx.exhaustive.is_empty() && ctx.failures.is_empty(),
+        "exhaustive": ctx.exhaustive_domain && ctx.failures.is_empty(),
         "exhaustive_universes": ctx.exhaustive,
         "subchecks": ctx.subchecks,
         "classes": ctx.stats.classes,
